@@ -177,13 +177,31 @@ func vpC07ParseResponses(out []byte) (codes []int, bodies [][]byte, err error) {
 func TestVP_C07_ServerBodyLimit(t *testing.T) {
 	rapid.Check(t, func(t *rapid.T) {
 		L := vpC07GenLimit(t, vpScale(64*1024, 256*1024))
+		// where the limit comes from: Server.MaxRequestBodySize, a per-request RequestConfig returned by
+		// HeaderReceived (server-wide setting absent or larger), or the 4 MiB default of a non-positive setting
+		limitSrc := rapid.SampledFrom([]string{"server", "server", "server", "per-request", "per-request", "default"}).Draw(t, "limitSrc")
+		srvLimit := L
+		switch limitSrc {
+		case "per-request":
+			srvLimit = rapid.SampledFrom([]int{0, 4 * L, 1 << 30}).Draw(t, "serverWide")
+		case "default":
+			srvLimit = rapid.SampledFrom([]int{0, -1}).Draw(t, "nonPositive")
+			L = DefaultMaxRequestBodySize
+		}
 		size, rel := vpC07GenSize(t, L)
 		rbs := rapid.SampledFrom([]int{4096, 4096, 256, 512, 1024, 8192, 300}).Draw(t, "rbs")
 		framing := rapid.SampledFrom([]string{"fixed", "chunked", "chunked", "fixed-unsent", "chunked-unsent", "fixed-multipart"}).Draw(t, "framing")
-		expect100 := rapid.IntRange(0, 7).Draw(t, "expect100") == 7
+		if limitSrc == "default" {
+			// bodies around 4 MiB are only declared, not sent (the decision has to fall on the declaration)
+			framing = rapid.SampledFrom([]string{"fixed-unsent", "chunked-unsent"}).Draw(t, "framingUnsent")
+		}
+		expect100 := rapid.IntRange(0, 7).Draw(t, "expect100") >= 6
 		rmu := rapid.Bool().Draw(t, "rmu")
 		stayOpen := rapid.Bool().Draw(t, "stayopen")
 		body := vpC07Payload(size, L)
+		if limitSrc == "default" {
+			body = vpC07Payload(min(size, 16), L)
+		}
 		head := "POST /c07 HTTP/1.1\r\nHost: example.com\r\n"
 		var formValue []byte // fixed-multipart: the value of the single form field
 		if framing == "fixed-multipart" {
@@ -211,7 +229,9 @@ func TestVP_C07_ServerBodyLimit(t *testing.T) {
 		case "fixed-unsent": // the length is only declared; at most a few bytes follow and the connection stays open
 			declared := size
 			if rapid.Bool().Draw(t, "huge") && size > L {
-				declared = 1 << 40
+				// far above any limit; mostly a size that a server which wrongly accepts it can still
+				// allocate (it then shows up as a violation below instead of killing the test process)
+				declared = rapid.SampledFrom([]int{1 << 26, 1 << 26, 1 << 26, 1 << 40}).Draw(t, "hugeSize")
 			}
 			head += fmt.Sprintf("Content-Length: %d\r\n\r\n", declared)
 			sent = min(size, rapid.IntRange(0, 3).Draw(t, "sentbytes"))
@@ -263,10 +283,13 @@ func TestVP_C07_ServerBodyLimit(t *testing.T) {
 				mu.Unlock()
 				ctx.SetBodyString("ok")
 			},
-			MaxRequestBodySize: L,
+			MaxRequestBodySize: srvLimit,
 			ReadBufferSize:     rbs,
 			ReduceMemoryUsage:  rmu,
 			Logger:             vpNopLogger{},
+		}
+		if limitSrc == "per-request" {
+			s.HeaderReceived = func(*RequestHeader) RequestConfig { return RequestConfig{MaxRequestBodySize: L} }
 		}
 		w := vpNewWire(stream, plan, !stayOpen)
 		done := make(chan struct{})
@@ -296,12 +319,15 @@ func TestVP_C07_ServerBodyLimit(t *testing.T) {
 		if expect100 {
 			class += "/expect100"
 		}
+		if limitSrc != "server" {
+			class += "/limit-" + limitSrc
+		}
 		nontrivial := size >= L-2 && size <= L+2 || framing == "chunked" && size > L
-		vpCase(class, nontrivial, fmt.Sprintf("%d|%d|%d|%s|%v|%v|%v", L, size, rbs, framing, plan, rmu, expect100), func() string {
-			return fmt.Sprintf("L=%d size=%d sent=%d rbs=%d framing=%s expect100=%v rmu=%v stayOpen=%v plan=%v -> state=%s calls=%q delivered=%d/%d out=%s",
+		vpCase(class, nontrivial, fmt.Sprintf("%d|%d|%d|%s|%v|%v|%v|%s%d", L, size, rbs, framing, plan, rmu, expect100, limitSrc, srvLimit), func() string {
+			return fmt.Sprintf("limit=%s(server-wide %d) L=%d size=%d sent=%d rbs=%d framing=%s expect100=%v rmu=%v stayOpen=%v plan=%v -> state=%s calls=%q delivered=%d/%d out=%s",
 				L, size, sent, rbs, framing, expect100, rmu, stayOpen, plan, st, calls, delivered, len(stream), vpQuote(out, 160))
 		})
-		desc := fmt.Sprintf("L=%d size=%d sent=%d rbs=%d framing=%s expect100=%v rmu=%v stayOpen=%v plan=%v head=%q", L, size, sent, rbs, framing, expect100, rmu, stayOpen, plan, head)
+		desc := fmt.Sprintf("limit=%s(server-wide %d) L=%d size=%d sent=%d rbs=%d framing=%s expect100=%v rmu=%v stayOpen=%v plan=%v head=%q", limitSrc, srvLimit, L, size, sent, rbs, framing, expect100, rmu, stayOpen, plan, head)
 		if st == "timeout" {
 			t.Fatalf("server neither answered/closed nor went idle within %v (%s)", vpC07Wait, desc)
 		}
@@ -514,7 +540,7 @@ func TestVP_C07_ClientBodyLimit(t *testing.T) {
 		case "fixed-unsent":
 			declared := size
 			if size > L && rapid.Bool().Draw(t, "huge") {
-				declared = 1 << 40
+				declared = rapid.SampledFrom([]int{1 << 26, 1 << 26, 1 << 26, 1 << 40}).Draw(t, "hugeSize")
 			}
 			head += fmt.Sprintf("Content-Length: %d\r\n\r\n", declared)
 			wire = body[:min(size, rapid.IntRange(0, 3).Draw(t, "sentbytes"))]
